@@ -12,6 +12,7 @@ use std::sync::atomic::{AtomicBool, AtomicU64, Ordering};
 use std::time::Instant;
 
 pub mod pt;
+pub mod ptracefs;
 pub mod supervise;
 
 /// root for evidence/, replays/, known_findings.json (env VERIF_ROOT overrides; used by mutant runs)
